@@ -15,7 +15,8 @@ package main
 //                  its predicted set, and checks the workload's coverage: every storage method of the three
 //                  default managers and every handler family of the property's quantifier must have run
 //                  while requests of other goroutines were in flight (a gap is a finding of its own).
-//   suite c20work  (race binary) the workload: suite_c20work.go.
+//   suite c20work  (race binary) the workload: suite_c20work.go (OpenID worlds), suite_c20cold.go (cold start, FAPI),
+//                  suite_c20cfg.go (the configuration as shared memory: wide configuration, bare cold start).
 
 import (
 	"encoding/json"
@@ -40,6 +41,7 @@ type raceAccess struct {
 	InitAuth bool // below internal/authorize.initAuth: the FIRST request of an authorization (GET/POST /authorize). Every session it
 	// handles is private to the request until it saves it - a new one, or a COPY of the pushed one
 	Cold bool // below main.c20Cold*: a first request against a provider with static clients only (suite_c20cold.go)
+	Wide bool // below main.c20WideRequest: a request of a burst against the wide-configuration provider (suite_c20cfg.go)
 }
 
 // c20Qualify: the object class a WRITE site concerns, where the stack tells.  The writers of sessions (internal/authorize,
@@ -47,17 +49,44 @@ type raceAccess struct {
 // in a race report is named "<site>[initAuth]" - it is NOT the known in-place rewrite of the stored session by the
 // callback.  The writers of clients (goidc.Client methods) in the cold-start phase can only reach STATIC clients, which
 // a request must never write: "<site>[static-client]" - NOT the known write to a client held by the client storage.
+//
+// The CONFIGURATION (suite_c20cfg.go): a write whose innermost go-oidc frame is a method of oidc.Context or
+// oidc.Configuration - the request context is a VALUE that embeds the shared *Configuration; nothing else a Context
+// method touches is shared, and no method of it writes anything but locals on the verified tree (Context.Client, which
+// hands out the static clients, is left to the [static-client] rule) -, a function of pkg/provider (the package that
+// builds and owns the configuration) or of internal/discovery (whose handlers touch nothing but the configuration) is a
+// request-time write to a configuration object: "<site>[config]" (ClientAuthnSigAlgs' append into the spare capacity
+// of PrivateKeyJWTSigAlgs, a lazily assigned HTTPClientFunc).  Requests only READ the configuration
+// (Model/AccessCfg.v, Props/C20.v config_never_written): no [config] signature is predicted or known.
+//
+// The bursts of the wide phase (below main.c20WideRequest) send client_credentials, /par, /introspect and /revoke
+// of an unknown token, /bc-authorize and discovery only: every session or grant is created by the request that saves
+// it and nothing stored is rewritten, so NO unsynchronised write is expected there at all - a writer not qualified
+// otherwise is named "<site>[wide-burst]" and cannot be taken for one of the known in-place writes.
 func c20Qualify(a raceAccess) string {
 	if a.Kind != "write" {
 		return ""
 	}
 	switch {
+	case c20ConfigWriter(a.Func):
+		return "[config]"
 	case a.InitAuth && (strings.HasPrefix(a.Func, "internal/authorize.") || strings.HasPrefix(a.Func, "pkg/goidc.(*AuthnSession).") || strings.HasPrefix(a.Func, "internal/strutil.")):
 		return "[initAuth]"
 	case a.Cold && (strings.HasPrefix(a.Func, "pkg/goidc.(*Client).") || strings.HasPrefix(a.Func, "internal/oidc.")):
 		return "[static-client]"
+	case a.Wide:
+		return "[wide-burst]"
 	}
 	return ""
+}
+
+func c20ConfigWriter(fn string) bool {
+	for _, recv := range []string{"internal/oidc.Context.", "internal/oidc.(*Context).", "internal/oidc.Configuration.", "internal/oidc.(*Configuration)."} {
+		if rest, ok := strings.CutPrefix(fn, recv); ok {
+			return rest != "Client" && !strings.HasPrefix(rest, "Client.")
+		}
+	}
+	return strings.HasPrefix(fn, "pkg/provider.") || strings.HasPrefix(fn, "internal/discovery.")
 }
 
 var raceHead = regexp.MustCompile(`^(Previous )?(atomic )?([Rr]ead|[Ww]rite) at 0x[0-9a-f]+ by `)
@@ -103,6 +132,9 @@ func parseRaceReports(txt string) (sigs map[string]string, unnamed int) {
 				}
 				if strings.HasPrefix(fn, "main.c20Cold") {
 					a.Cold = true
+				}
+				if strings.HasPrefix(fn, "main.c20WideRequest") {
+					a.Wide = true
 				}
 			}
 			if a.Func == "" && !a.Lost {
@@ -233,6 +265,8 @@ func c20Gaps(dist map[string]int) (gaps []string) {
 			gaps = append(gaps, "cold-start:"+strings.TrimPrefix(k, "cold-start/"))
 		}
 	}
+	// the configuration as shared memory: the wide-configuration provider and the bare cold start (suite_c20cfg.go)
+	gaps = append(gaps, c20CfgGaps(dist)...)
 	return gaps
 }
 
@@ -311,7 +345,8 @@ func c20Drive(ctx *RunCtx) {
 				crashStack = crashStack[:j]
 			}
 		}
-		qual := c20Qualify(raceAccess{Kind: "write", Func: fn, InitAuth: strings.Contains(crashStack, "internal/authorize.initAuth("), Cold: strings.Contains(crashStack, "main.c20Cold")})
+		qual := c20Qualify(raceAccess{Kind: "write", Func: fn, InitAuth: strings.Contains(crashStack, "internal/authorize.initAuth("), Cold: strings.Contains(crashStack, "main.c20Cold"),
+			Wide: strings.Contains(crashStack, "main.c20WideRequest")})
 		sig := "unsynchronised-write:" + fn + qual
 		if fn == "" || strings.HasPrefix(fn, "internal/storage.") {
 			sig = "runtime-abort:" + crashed + ":" + fn
@@ -377,9 +412,10 @@ func c20Drive(ctx *RunCtx) {
 				Replay: map[string]any{"workload": workload, "input_distribution": wm.Dist}})
 		}
 	}
-	// ask the model whether each observed signature is in its predicted set
+	// ask the model whether each observed signature is in its predicted set (Model/AccessCfg.v predicted_signature_cfg:
+	// Access.predicted_signature, except that no signature with a [config] / [wide-burst] element is predicted)
 	var b strings.Builder
-	b.WriteString("From Verif Require Import Base Access.\nLocal Open Scope N_scope.\nDefinition observed : list (string * string) := [\n")
+	b.WriteString("From Verif Require Import Base Access AccessCfg.\nLocal Open Scope N_scope.\nDefinition observed : list (string * string) := [\n")
 	var jcases []map[string]any
 	n := 0
 	for _, k := range keys {
@@ -394,7 +430,7 @@ func c20Drive(ctx *RunCtx) {
 		jcases = append(jcases, map[string]any{"Index": n, "Note": "race signature " + k, "Spec": k, "Obs": truncate(sigs[k], 2000)})
 		n++
 	}
-	b.WriteString("].\nDefinition corr := Eval vm_compute in map (fun s => if predicted_signature (fst s) (snd s) then 0 else 1) observed.\nPrint corr.\n")
+	b.WriteString("].\nDefinition corr := Eval vm_compute in map (fun s => if predicted_signature_cfg (fst s) (snd s) then 0 else 1) observed.\nPrint corr.\n")
 	_ = os.WriteFile(filepath.Join(ctx.Out, "cases_000.v"), []byte(b.String()), 0o644)
 	jb, _ := json.Marshal(jcases)
 	_ = os.WriteFile(filepath.Join(ctx.Out, "cases.json"), jb, 0o644)
@@ -405,8 +441,8 @@ func c20Drive(ctx *RunCtx) {
 		ctx.Meta.Dist[k] = v
 	}
 	ctx.Meta.Extra = map[string]any{"race_signatures": keys, "race_logs": len(logs), "reports_without_a_nameable_side": unnamed,
-		"storage_methods": c20StorageMethods(), "handler_families": c20Families, "handler_families_per_fapi_profile": c20FapiFamilies, "fapi_profiles": c20FapiProfiles, "coverage_gaps": gaps, "runtime_abort": crashed}
-	ctx.Meta.Rule = "requests served concurrently under the race detector, three phases: cold start (fresh providers with static clients only, 2..8 concurrent FIRST requests of static private_key_jwt clients with jwks_uri, first fetches held at the jwks endpoint / free / staggered: cold-start/...), FAPI 1.0 and FAPI 2.0 providers (PAR required, PKCE, private_key_jwt; families and outcomes suffixed @fapi1 / @fapi2), and the OpenID workload (2, 4, 8, 16, 16 goroutines in turn, alternately by a provider with and one without refresh-token rotation), every provider with its default in-memory storage; clients shared between goroutines, private to one, and registered/updated/deleted meanwhile; input_distribution: method/<M> and handler/<F> = invocations of every storage method of the three default managers and of every handler family, *-concurrent/ = those made while a request of another goroutine (for methods: one using the same manager) was in flight, outcome/ = what the requests answered; distinct = distinct race signatures (unordered pair of innermost go-oidc frame function and access kind)"
+		"storage_methods": c20StorageMethods(), "handler_families": c20Families, "handler_families_per_fapi_profile": c20FapiFamilies, "fapi_profiles": c20FapiProfiles, "handler_families_wide_configuration": c20WideFamilies, "handler_families_bare_cold_start": c20BareFamilies, "coverage_gaps": gaps, "runtime_abort": crashed}
+	ctx.Meta.Rule = "requests served concurrently under the race detector, five phases: cold start (fresh providers with static clients only, 2..8 concurrent FIRST requests of static private_key_jwt clients with jwks_uri, first fetches held at the jwks endpoint / free / staggered: cold-start/...), FAPI 1.0 and FAPI 2.0 providers (PAR required, PKCE, private_key_jwt; families and outcomes suffixed @fapi1 / @fapi2), bare cold start (the same against providers created with NO optional function - no WithHTTPClientFunc: Context.HTTPClient falls back to http.DefaultClient - whose jwks_uri, CIBA notification endpoint and sector_identifier_uri are real loopback listeners: cold-bare/..., families @bare), wide configuration (one provider with three or more values in every list-taking option, private_key_jwt with four algorithms and client_secret_jwt: bursts of 8 fresh goroutines x 3 assertion-carrying requests, then levels of 8 and 16 goroutines with discovery, DCR, JAR/JARM, DPoP flows besides the usual ones: wide/..., families @wide; a request-time write to a configuration object is named <site>[config]), and the OpenID workload (2, 4, 8, 16, 16 goroutines in turn, alternately by a provider with and one without refresh-token rotation), every provider with its default in-memory storage; clients shared between goroutines, private to one, and registered/updated/deleted meanwhile; input_distribution: method/<M> and handler/<F> = invocations of every storage method of the three default managers and of every handler family, *-concurrent/ = those made while a request of another goroutine (for methods: one using the same manager) was in flight, outcome/ = what the requests answered; distinct = distinct race signatures (unordered pair of innermost go-oidc frame function and access kind)"
 	for i, k := range keys {
 		if i < 3 {
 			ctx.Meta.Samples = append(ctx.Meta.Samples, map[string]any{"signature": k, "report": truncate(sigs[k], 1500)})
